@@ -286,3 +286,62 @@ PROPS["C16"] = {
         leg("rt-gc3", "c16_rt", (2, 2), {"kind": "gc", "L": 3}, what="max_allowed_parallelism 3: at most two workers"),
     ],
 }
+
+# ------------------------------------------------------------------------------------------------ C03
+def _c03():
+    L = []
+    progs = [("tg", "task_group with three bodies, then reuse", [0, 1, 2, 5, 7]), ("nested", "nested task_groups", [0, 1, 2, 6]),
+             ("pfor", "parallel_for simple_partitioner over 4 elements, then a second loop", [0, 1, 4, 10]), ("pfor_auto", "parallel_for(0,5) auto_partitioner", [1, 16]),
+             ("reduce_body", "parallel_reduce: the body throws", [1, 4]), ("reduce_join", "parallel_reduce: the join callback throws", [0, 1, 2]),
+             ("reduce_split", "parallel_reduce: the splitting constructor throws", [1, 2]), ("foreach", "parallel_for_each with feeder", [1, 4, 9]),
+             ("invoke", "parallel_invoke of three functions", [1, 6]), ("pipeline", "3-stage pipeline, 3 items, 2 tokens", [0, 1, 2, 16]),
+             ("graph", "function_node graph, wait_for_all, reset and reuse", [0, 1, 2, 4]), ("execute", "task_arena::execute of a nested one-slot arena", [1, 2])]
+    for k, what, masks in progs:
+        for m in masks:
+            L.append(leg("%s-m%d" % (k, m), "c03_rt", (2, 3) if k not in ("graph", "pipeline", "foreach") else (1, 2), {"kind": k, "mask": m}, what="%s; throwing invocations mask %d" % (what, m)))
+    return L
+PROPS["C03"] = {
+    "explanation": "Real scheduler with one worker: task_group, nested groups, parallel_for, parallel_reduce (throw in body / join / splitting constructor), parallel_for_each with feeder, "
+                   "parallel_invoke, parallel_pipeline, a flow graph and task_arena::execute; the i-th body invocation throws for every i in a leg-chosen mask (fault enumeration) and all "
+                   "schedules within the bound are explored. Oracle: the waiting call throws exactly one exception that was thrown, on the caller, while no body is live and none starts "
+                   "later; nothing is swallowed; the group / graph is reusable; copies of body objects are destroyed; deadlock detection (a lost completion is a hang).",
+    "legs": _c03(),
+}
+
+# ------------------------------------------------------------------------------------------------ C17
+PROPS["C17"] = {
+    "explanation": "Sequential exhaustive legs on the real tbbmalloc objects with a shadow heap (disjointness, alignment, msize, calloc zero, realloc prefix, patterns of all live blocks "
+                   "intact after every call): every size 0..70399, +-2 around every power of two up to 2^34 and the slab/large/huge thresholds, every power-of-two alignment 1..2^30 plus "
+                   "invalid ones x 7 sizes through malloc/calloc/realloc/aligned_*/posix_memalign, and ALL operation sequences of length depth over a 12-symbol alphabet, each on a fresh "
+                   "memory pool. Thread legs under the controlled scheduler: foreign free vs owner malloc (public free list vs privatisation), thread shutdown with live blocks (orphaned "
+                   "slabs) vs adoption, last object of a slab, large-object cache.",
+    "rule": "single-threaded legs: one case = one size block / boundary size / (alignment,size) pair / operation sequence, all enumerated; thread legs: every schedule within the deviation bound; "
+            "distinct = distinct outcome strings",
+    "legs": [
+        leg("sweep+seq4", "c17_seq", (0, 0), {"depth": 4}, flags=(), what="size/alignment sweep + all 12^4 operation sequences on fresh pools", tiers=("quick",)),
+        leg("sweep+seq5", "c17_seq", (0, 0), {"depth": 5}, flags=(), what="size/alignment sweep + all 12^5 operation sequences on fresh pools", tiers=("thorough",)),
+        leg("mt-foreign", "c17_mt", (3, 5), {"kind": "foreign", "size": 48}, what="foreign free vs owner malloc, 48-byte class"),
+        leg("mt-foreign8", "c17_mt", (3, 5), {"kind": "foreign", "size": 8}, what="8-byte class"),
+        leg("mt-foreign-fit", "c17_mt", (3, 4), {"kind": "foreign", "size": 3000}, what="fitting-size class"),
+        leg("mt-exit", "c17_mt", (2, 3), {"kind": "exit", "size": 48}, what="owner thread shuts down with live blocks; another thread frees them and allocates (orphan adoption)"),
+        leg("mt-last", "c17_mt", (3, 4), {"kind": "last", "size": 8000}, what="foreign free of the only object of a slab vs owner malloc"),
+        leg("mt-large", "c17_mt", (2, 3), {"kind": "large", "size": 100000}, what="large objects: foreign free + malloc through the large-object cache"),
+    ],
+}
+# ------------------------------------------------------------------------------------------------ C18
+PROPS["C18"] = {
+    "explanation": "Fault enumeration: every raw memory request (mmap of the default pool by link-time interposition, the raw callback of memory pools) is an explorer choice succeed/fail, so "
+                   "deviation bound b enumerates every pattern of at most b refused requests in each history (histories have 5-13 raw requests; the thorough bound covers all subsets); "
+                   "every execution is a fresh process. Oracle: the entry point reports failure only if a request was refused, live blocks stay intact, allocation works again afterwards, "
+                   "pool blocks lie inside the pool's own raw regions, pool_identify is right, a fixed pool calls the raw allocator once, reset/destroy return every region exactly once "
+                   "and never a region of another pool; extreme sizes/alignments/overflowing calloc are refused; C++ allocators throw bad_alloc.",
+    "rule": "one execution per pattern of refused raw requests (<= bound) per history; distinct = distinct (raw calls, refused, failures) outcomes",
+    "legs": [
+        leg("default-pool", "c18_faults", (4, 7), {"kind": "default"}, flags=(), what="default pool history: slabs, fitting, large, aligned, calloc, huge, posix_memalign, realloc"),
+        leg("memory-pool", "c18_faults", (3, 5), {"kind": "pool"}, flags=(), what="memory pool with growing raw memory, then reset and destroy"),
+        leg("fixed-pool", "c18_faults", (2, 2), {"kind": "fixed"}, flags=(), what="fixed pool: buffer handed out once"),
+        leg("two-pools", "c18_faults", (4, 6), {"kind": "twopools"}, flags=(), what="two pools with live blocks; destroying one must not touch the other"),
+        leg("extreme-args", "c18_faults", (0, 0), {"kind": "extreme"}, flags=(), what="sizes near SIZE_MAX, alignments up to 2^63, overflowing calloc, invalid alignments"),
+        leg("cxx-allocators", "c18_faults", (3, 4), {"kind": "cxx"}, flags=(), what="scalable_allocator::allocate throws std::bad_alloc"),
+    ],
+}
